@@ -112,13 +112,58 @@ static void out(const std::string &s)
     std::cout << s << std::endl;
 }
 
+// ---- real motion validators over a recording validity checker -------------------------------------------------------
+// `<op> <2|3> <s1> <s2> <bound>`: valid iff coordinate `axis` of the asked state is <= bound.  Prints the verdict, nd, the
+// longest valid segment length, every asked state in call order, lastValid (fraction and state) and the counter increments.
+template <class Space, class MV, class ShowFn>
+static std::string runValidator(const std::shared_ptr<Space> &space, MV &mv, std::vector<std::string> &asked, bool three, const ob::State *s1,
+                                const ob::State *s2, ob::State *scratch, ShowFn show, bool havePath)
+{
+    asked.clear();
+    unsigned v0 = mv.getValidMotionCount(), i0 = mv.getInvalidMotionCount();
+    bool res;
+    std::string lv = "none";
+    if (!three)
+        res = mv.checkMotion(s1, s2);
+    else
+    {
+        std::pair<ob::State *, double> last(scratch, -1.);
+        space->copyState(scratch, s1);
+        res = mv.checkMotion(s1, s2, last);
+        if (last.second != -1.)
+            lv = vp::bits(last.second) + ":" + show(scratch);
+    }
+    std::string q;
+    for (auto &a : asked)
+        q += (q.empty() ? "" : ";") + a;
+    return std::string("res=") + (res ? "1" : "0") + " nd=" + (havePath ? std::to_string(space->validSegmentCount(s1, s2)) : std::string("-")) +
+           " L=" + vp::bits(space->getLongestValidSegmentLength()) + " q=" + std::to_string(asked.size()) + " " + (q.empty() ? "-" : q) + " lv=" + lv +
+           " dv=" + std::to_string(mv.getValidMotionCount() - v0) + " di=" + std::to_string(mv.getInvalidMotionCount() - i0);
+}
+
+static std::string showSE2(const ob::State *st)
+{
+    auto q = st->as<Pose>();
+    return vp::bits(q->getX()) + "," + vp::bits(q->getY()) + "," + vp::bits(q->getYaw());
+}
+
 static int runDubins(double rho, bool sym, double lo, double hi)
 {
-    DSS sp(rho, sym);
+    auto space = std::make_shared<DSS>(rho, sym);
+    DSS &sp = *space;
     ob::RealVectorBounds b(2);
     b.setLow(lo);
     b.setHigh(hi);
     sp.setBounds(b);
+    auto si = std::make_shared<ob::SpaceInformation>(space);
+    double bound = 0;
+    std::vector<std::string> asked;
+    si->setStateValidityChecker([&](const ob::State *st) {
+        asked.push_back(showSE2(st));
+        return st->as<Pose>()->getX() <= bound;
+    });
+    si->setup();
+    ob::DubinsMotionValidator mv(si);
     auto *s1 = sp.allocState()->as<Pose>();
     auto *s2 = sp.allocState()->as<Pose>();
     auto *o = sp.allocState()->as<Pose>();
@@ -129,7 +174,15 @@ static int runDubins(double rho, bool sym, double lo, double hi)
         if (t.empty())
             continue;
         const std::string &op = t[0];
-        if (op == "path" && t.size() == 7 && setPose(s1, t, 1) && setPose(s2, t, 4))
+        if ((op == "dmv" && t.size() == 9 || op == "dmvr" && t.size() == 10) && (t[1] == "2" || t[1] == "3") && setPose(s1, t, 2) && setPose(s2, t, 5) &&
+            vp::parseBits(t[8]))
+        {
+            // the real DubinsMotionValidator (valid iff x <= bound); `dmvr` carries the recorded L for drv_dubins (ignored here)
+            bound = *vp::parseBits(t[8]);
+            bool have = !isDefault(sp.dubins(s1, s2)) || (sym && !isDefault(sp.dubins(s2, s1)));
+            out(have ? runValidator(space, mv, asked, t[1] == "3", s1, s2, o, showSE2, true) : std::string("nopath"));
+        }
+        else if (op == "path" && t.size() == 7 && setPose(s1, t, 1) && setPose(s2, t, 4))
             out(showRes(sp.dubins(s1, s2)));
         else if (op == "dab" && t.size() == 4 && vp::parseBits(t[1]) && vp::parseBits(t[2]) && vp::parseBits(t[3]))
             out(showRes(::dubins(*vp::parseBits(t[1]), *vp::parseBits(t[2]), *vp::parseBits(t[3]))));
@@ -199,11 +252,21 @@ static int runDubins(double rho, bool sym, double lo, double hi)
 
 static int runRS(double rho, double lo, double hi)
 {
-    RSX sp(rho);
+    auto space = std::make_shared<RSX>(rho);
+    RSX &sp = *space;
     ob::RealVectorBounds b(2);
     b.setLow(lo);
     b.setHigh(hi);
     sp.setBounds(b);
+    auto si = std::make_shared<ob::SpaceInformation>(space);
+    double bound = 0;
+    std::vector<std::string> asked;
+    si->setStateValidityChecker([&](const ob::State *st) {
+        asked.push_back(showSE2(st));
+        return st->as<Pose>()->getX() <= bound;
+    });
+    si->setup();
+    ob::ReedsSheppMotionValidator mv(si);
     auto *s1 = sp.allocState()->as<Pose>();
     auto *s2 = sp.allocState()->as<Pose>();
     auto *o = sp.allocState()->as<Pose>();
@@ -214,7 +277,14 @@ static int runRS(double rho, double lo, double hi)
         if (t.empty())
             continue;
         const std::string &op = t[0];
-        if (op == "rspath" && t.size() == 7 && setPose(s1, t, 1) && setPose(s2, t, 4))
+        if ((op == "rsmv" && t.size() == 9 || op == "rsmvr" && t.size() == 10) && (t[1] == "2" || t[1] == "3") && setPose(s1, t, 2) && setPose(s2, t, 5) &&
+            vp::parseBits(t[8]))
+        {
+            // the real ReedsSheppMotionValidator (valid iff x <= bound)
+            bound = *vp::parseBits(t[8]);
+            out(!rsDefault(sp.reedsShepp(s1, s2)) ? runValidator(space, mv, asked, t[1] == "3", s1, s2, o, showSE2, true) : std::string("nopath"));
+        }
+        else if (op == "rspath" && t.size() == 7 && setPose(s1, t, 1) && setPose(s2, t, 4))
         {
             auto p = sp.reedsShepp(s1, s2);
             if (rsDefault(p))
@@ -435,11 +505,25 @@ static bool setPose5(VSS::StateType *s, const std::vector<std::string> &t, size_
 
 static int runVana(double rho, double pitch, double lo, double hi)
 {
-    VSS sp(rho, pitch);
+    auto space = std::make_shared<VSS>(rho, pitch);
+    VSS &sp = *space;
     ob::RealVectorBounds b(3);
     b.setLow(lo);
     b.setHigh(hi);
     sp.setBounds(b);
+    auto show5 = [](const ob::State *st) {
+        auto q = st->as<VSS::StateType>();
+        return vp::bits((*q)[0]) + "," + vp::bits((*q)[1]) + "," + vp::bits((*q)[2]) + "," + vp::bits(q->pitch()) + "," + vp::bits(q->yaw());
+    };
+    auto si = std::make_shared<ob::SpaceInformation>(space);
+    double bound = 0;
+    std::vector<std::string> asked;
+    si->setStateValidityChecker([&](const ob::State *st) {
+        asked.push_back(show5(st));
+        return (*st->as<VSS::StateType>())[2] <= bound;
+    });
+    si->setup();
+    ob::Dubins3DMotionValidator<VSS> mv(si);
     auto *s1 = sp.allocState()->as<VSS::StateType>();
     auto *s2 = sp.allocState()->as<VSS::StateType>();
     auto *o = sp.allocState()->as<VSS::StateType>();
@@ -450,7 +534,14 @@ static int runVana(double rho, double pitch, double lo, double hi)
         if (t.empty())
             continue;
         const std::string &op = t[0];
-        if (op == "vpath" && t.size() == 11 && setPose5(s1, t, 1) && setPose5(s2, t, 6))
+        if ((op == "vmv" && t.size() == 13 || op == "vmvr" && t.size() == 14) && (t[1] == "2" || t[1] == "3") && setPose5(s1, t, 2) && setPose5(s2, t, 7) &&
+            vp::parseBits(t[12]))
+        {
+            // the real Dubins3DMotionValidator<VanaStateSpace> (valid iff z <= bound)
+            bound = *vp::parseBits(t[12]);
+            out(runValidator(space, mv, asked, t[1] == "3", s1, s2, o, show5, static_cast<bool>(sp.getPath(s1, s2))));
+        }
+        else if (op == "vpath" && t.size() == 11 && setPose5(s1, t, 1) && setPose5(s2, t, 6))
         {
             auto p = sp.getPath(s1, s2);
             if (!p || isDefault(p->pathXY_) || isDefault(p->pathSZ_))
@@ -503,11 +594,25 @@ static bool setPose5o(VOS::StateType *s, const std::vector<std::string> &t, size
 
 static int runVanaOwen(double rho, double pitch, double lo, double hi)
 {
-    VOS sp(rho, pitch);
+    auto space = std::make_shared<VOS>(rho, pitch);
+    VOS &sp = *space;
     ob::RealVectorBounds b(3);
     b.setLow(lo);
     b.setHigh(hi);
     sp.setBounds(b);
+    auto show5 = [](const ob::State *st) {
+        auto q = st->as<VOS::StateType>();
+        return vp::bits((*q)[0]) + "," + vp::bits((*q)[1]) + "," + vp::bits((*q)[2]) + "," + vp::bits(q->pitch()) + "," + vp::bits(q->yaw());
+    };
+    auto si = std::make_shared<ob::SpaceInformation>(space);
+    double bound = 0;
+    std::vector<std::string> asked;
+    si->setStateValidityChecker([&](const ob::State *st) {
+        asked.push_back(show5(st));
+        return (*st->as<VOS::StateType>())[2] <= bound;
+    });
+    si->setup();
+    ob::Dubins3DMotionValidator<VOS> mv(si);
     auto *s1 = sp.allocState()->as<VOS::StateType>();
     auto *s2 = sp.allocState()->as<VOS::StateType>();
     auto *o = sp.allocState()->as<VOS::StateType>();
@@ -518,7 +623,14 @@ static int runVanaOwen(double rho, double pitch, double lo, double hi)
         if (t.empty())
             continue;
         const std::string &op = t[0];
-        if (op == "vopath" && t.size() == 11 && setPose5o(s1, t, 1) && setPose5o(s2, t, 6))
+        if ((op == "vomv" && t.size() == 13 || op == "vomvr" && t.size() > 14) && (t[1] == "2" || t[1] == "3") && setPose5o(s1, t, 2) && setPose5o(s2, t, 7) &&
+            vp::parseBits(t[12]))
+        {
+            // the real Dubins3DMotionValidator<VanaOwenStateSpace> (valid iff z <= bound); `vomvr` carries L and the recorded path (ignored here)
+            bound = *vp::parseBits(t[12]);
+            out(runValidator(space, mv, asked, t[1] == "3", s1, s2, o, show5, static_cast<bool>(sp.getPath(s1, s2))));
+        }
+        else if (op == "vopath" && t.size() == 11 && setPose5o(s1, t, 1) && setPose5o(s2, t, 6))
         {
             auto p = sp.getPath(s1, s2);
             if (!p || isDefault(p->pathXY_) || isDefault(p->pathSZ_))
